@@ -6,7 +6,7 @@
 From Coq Require Import ZArith QArith Qcanon List Bool String Ring_theory.
 Import ListNotations.
 Require Import TV.Base.EP TV.Base.EPSound TV.Model.Lane TV.Spec.RotGates TV.gen.Gen_instructions TV.gen.Gen_stim_gates
-  TV.Model.GateCheck TV.Proofs.GateProofs.
+  TV.Model.GateCheck TV.Proofs.GateProofs TV.Base.Amp TV.Proofs.CircuitProofs TV.Proofs.CircuitTheorem.
 
 (* the finite table: every GATE_TABLE row whose name Stim documents as a unitary, in both target orders *)
 Theorem C05_gate_table : forallb check_row gate_table = true.
@@ -59,3 +59,67 @@ Theorem C05_rz_quarter_is_T :
     eval R rO rI radd rmul ropp E half eighth tb tc (entry doc_RZ i j)
     = rmul (E (- eighth)%Qc) (eval R rO rI radd rmul ropp E half eighth tb tc (entry doc_T i j)).
 Proof. exact rz_quarter_is_T. Qed.
+
+(* ---------------------------------------------------------------------------------------------------------------
+   Composition on registers of ANY size (amplitude functions, Base/Amp.v; uses functional extensionality).
+   `U ops` is the operator (scalar included) that the unitary fragment of the lane program `ops` applies to a state;
+   `app1 M a`, `app2 M a b` apply a one-/two-qubit matrix to lane a / lanes a,b of a state on any number of lanes. *)
+
+(* a GATE_TABLE gate on ANY lane(s) of ANY register is its documented matrix applied there, times a unit phase *)
+Theorem C05_gate1_anywhere :
+  forall (R : Type) (rO rI : R) (radd rmul rsub : R -> R -> R) (ropp : R -> R),
+  ring_theory rO rI radd rmul rsub ropp eq ->
+  forall E : Qc -> R, (forall a b, E (a + b)%Qc = rmul (E a) (E b)) -> E 0%Qc = rI -> E 1%Qc = ropp rI ->
+  forall half : R, radd half half = rI -> forall ta tb tc : Qc,
+  forall name fn D, In (name, (fn, 1%nat)) gate_table -> doc_of name = Some (1%nat, D) ->
+  exists g e, assoc fn unitary1 = Some g /\ In e clifford_phases /\
+    forall a psi, U R rO rI radd rmul ropp E half ta tb tc (g a) psi =
+      Amp.scale R rmul (E (expo_val ta tb tc e)) (Amp.app1 R radd rmul (m2f_doc R rO rI radd rmul ropp E half ta tb tc D) a psi).
+Proof. exact gate1_anywhere. Qed.
+Theorem C05_gate2_anywhere :
+  forall (R : Type) (rO rI : R) (radd rmul rsub : R -> R -> R) (ropp : R -> R),
+  ring_theory rO rI radd rmul rsub ropp eq ->
+  forall E : Qc -> R, (forall a b, E (a + b)%Qc = rmul (E a) (E b)) -> E 0%Qc = rI -> E 1%Qc = ropp rI ->
+  forall half : R, radd half half = rI -> forall ta tb tc : Qc,
+  forall name fn D, In (name, (fn, 2%nat)) gate_table -> doc_of name = Some (2%nat, D) ->
+  exists g e, assoc fn unitary2 = Some g /\ In e clifford_phases /\
+    forall a b psi, a <> b -> U R rO rI radd rmul ropp E half ta tb tc (g a b) psi =
+      Amp.scale R rmul (E (expo_val ta tb tc e)) (Amp.app2 R radd rmul (m4f_of R rO rI radd rmul ropp E half ta tb tc D) a b psi).
+Proof. exact gate2_anywhere. Qed.
+(* rotations, U3, T, T_DAG at any lane of any register, for every angle *)
+Theorem C05_rotations_anywhere :
+  forall (R : Type) (rO rI : R) (radd rmul rsub : R -> R -> R) (ropp : R -> R),
+  ring_theory rO rI radd rmul rsub ropp eq ->
+  forall E : Qc -> R, (forall a b, E (a + b)%Qc = rmul (E a) (E b)) -> E 0%Qc = rI -> E 1%Qc = ropp rI ->
+  forall half : R, radd half half = rI -> forall ta tb tc : Qc,
+    (exists e, forall a psi, U R rO rI radd rmul ropp E half ta tb tc (g_r_z a theta) psi = Amp.scale R rmul (E (expo_val ta tb tc e)) (Amp.app1 R radd rmul (m2f_doc R rO rI radd rmul ropp E half ta tb tc doc_RZ) a psi)) /\
+    (exists e, forall a psi, U R rO rI radd rmul ropp E half ta tb tc (g_r_x a theta) psi = Amp.scale R rmul (E (expo_val ta tb tc e)) (Amp.app1 R radd rmul (m2f_doc R rO rI radd rmul ropp E half ta tb tc doc_RX) a psi)) /\
+    (exists e, forall a psi, U R rO rI radd rmul ropp E half ta tb tc (g_r_y a theta) psi = Amp.scale R rmul (E (expo_val ta tb tc e)) (Amp.app1 R radd rmul (m2f_doc R rO rI radd rmul ropp E half ta tb tc doc_RY) a psi)) /\
+    (exists e, forall a psi, U R rO rI radd rmul ropp E half ta tb tc (g_u3 a theta phi lambda) psi = Amp.scale R rmul (E (expo_val ta tb tc e)) (Amp.app1 R radd rmul (m2f_doc R rO rI radd rmul ropp E half ta tb tc doc_U3) a psi)) /\
+    (exists e, forall a psi, U R rO rI radd rmul ropp E half ta tb tc (g_t a) psi = Amp.scale R rmul (E (expo_val ta tb tc e)) (Amp.app1 R radd rmul (m2f_doc R rO rI radd rmul ropp E half ta tb tc doc_T) a psi)) /\
+    (exists e, forall a psi, U R rO rI radd rmul ropp E half ta tb tc (g_t_dag a) psi = Amp.scale R rmul (E (expo_val ta tb tc e)) (Amp.app1 R radd rmul (m2f_doc R rO rI radd rmul ropp E half ta tb tc doc_T_DAG) a psi)).
+Proof. exact rotations_anywhere. Qed.
+(* sequential composition *)
+Theorem C05_sequential :
+  forall (R : Type) (rO rI : R) (radd rmul rsub : R -> R -> R) (ropp : R -> R),
+  ring_theory rO rI radd rmul rsub ropp eq ->
+  forall (E : Qc -> R) (half : R) (ta tb tc : Qc) o1 o2 psi,
+    U R rO rI radd rmul ropp E half ta tb tc (o1 ++ o2) psi = U R rO rI radd rmul ropp E half ta tb tc o2 (U R rO rI radd rmul ropp E half ta tb tc o1 psi).
+Proof. exact U_app. Qed.
+(* THE composition theorem: for every sequence of GATE_TABLE unitaries on any lanes (two-qubit gates on distinct lanes) of a
+   register of any size, the drawn program acts as one unit phase E(q) times the documented gates applied in order *)
+Theorem C05_circuit :
+  forall (R : Type) (rO rI : R) (radd rmul rsub : R -> R -> R) (ropp : R -> R),
+  ring_theory rO rI radd rmul rsub ropp eq ->
+  forall E : Qc -> R, (forall a b, E (a + b)%Qc = rmul (E a) (E b)) -> E 0%Qc = rI -> E 1%Qc = ropp rI ->
+  forall half : R, radd half half = rI -> forall ta tb tc : Qc,
+  forall c ops, circuit_ops c = Some ops ->
+    exists q : Qc, forall psi,
+      U R rO rI radd rmul ropp E half ta tb tc ops psi =
+      Amp.scale R rmul (E q) (fold_left (fun s x => gapp_doc R rO rI radd rmul ropp E half ta tb tc x s) c psi).
+Proof. exact circuit_sound. Qed.
+(* non-vacuity: a concrete circuit on lanes 0, 3, 7 with repeated and non-adjacent targets is accepted *)
+Example C05_circuit_inhabited :
+  exists ops, circuit_ops [GA1 "H" 3; GA2 "CX" 3 0; GA2 "ISWAP" 7 3; GA1 "S_DAG" 0; GA2 "XCY" 0 7; GA1 "C_XYZ" 3]%string%nat = Some ops
+              /\ (10 <= List.length ops)%nat.
+Proof. eexists. split; [vm_compute; reflexivity | vm_compute; repeat constructor]. Qed.
